@@ -124,7 +124,7 @@ def run(tier):
     # (d) wide generated tables: every opcode family with operands of unusual shapes (multi-cell indicators, separators
     #     longer than what they mark, grouping/swap classes used from multipass rules, emphasis classes, compbrl, match ...),
     #     inputs made of the rules' own strings, emphasis typeforms, capacities swept around the result length
-    cases += st.wide_cases(rng, 300 if tier == "quick" else 3000, per_table=8, back=False, exact=True, tag="c01w")
+    cases += st.wide_cases(rng, 300 if tier == "quick" else 3000, per_table=8, back=False, exact=True, tag="c01w", groupreplace=True)
     cases += st.composite_cases(rng, 150 if tier == "quick" else 3000, per_table=8, tag="c01wc", exact=True)
     calls = st.run_and_trace(exe, cases, timeout=300)
     # one process per history: the allocator state is per process
